@@ -144,6 +144,7 @@ type FuncVC struct {
 	bounded     bool
 	skolems     map[*ast.FuncLit]skolemInfo
 	decomps     map[string][]string
+	anys        map[string]*Val
 	boundActive []string
 	noFacts     int
 	boundSorts  []string   // sorts of boundActive entries ("" for non-quantifier bindings)
